@@ -151,6 +151,8 @@ TABLE.update({
     "fixrev_d21aece_e2e.diff": ("e2e", 'Bundle b = { ("signal-C", 20), ("signal-D", 5) };\nint k = 6;\nBundle q = (b > 4) : k;\n', None),
     "fixrev_a711e42.diff": ("contracts.c02", "_lower_identifier_condition_output_spec", None),
     "fixrev_a711e42_e2e.diff": ("e2e", 'Signal x = ("signal-A", 6);\nBundle b = { ("signal-C", 20), ("signal-D", 5) };\nSignal c = x > 3;\nBundle g = c : b;\n', None),
+    "c05_latch_dispatch_inverted.diff": ("contracts.c05", "MemoryBuilder.handle_latch_write", None),
+    "c05_remapper_doubles.diff": ("contracts.c05", "_create_signal_remapper", None),
     "c08_preserved_shares_network_zero.diff": ("contracts.c12", "_restore_preserved_connection", None),
     "c08_preserved_routing_failure_ignored.diff": ("contracts.c12", "_restore_preserved_connection", None),
     "c08_preserved_span_doubled.diff": ("contracts.c12", "_restore_preserved_connection", None),
